@@ -610,15 +610,24 @@ enum FlavorOutcome {
     Refused(Option<ErrClass>, String),
 }
 
-struct GrabOutcome(Option<FlavorOutcome>, Option<Value>);
+struct GrabOutcome(Option<FlavorOutcome>, Option<Value>, u32);
 impl WithPurl for GrabOutcome {
     fn ok<T: Flavor>(&mut self, f: &'static str, p: &purl::GenericPurl<T>, acc: &mut Acc) {
         self.0 = Some(FlavorOutcome::Built(observe(p), p.to_string()));
         if let Some(case) = &self.1 {
-            // C10 for every type parameter: re-building is the identity
+            // the value monitors for every type parameter (Cow in both forms has no parser, so the
+            // builder is the only way to obtain such values)
             let mut c = case.clone();
             c["flavor"] = json!(f);
-            m10(p, &c, acc);
+            if self.2 & M10 != 0 {
+                m10(p, &c, acc);
+            }
+            if self.2 & M03 != 0 {
+                m03(p, &c, acc);
+            }
+            if self.2 & M04 != 0 {
+                m04(p, true, &c, acc);
+            }
         }
     }
     fn refused(&mut self, _f: &'static str, c: Option<ErrClass>, t: &str, _acc: &mut Acc) {
@@ -626,9 +635,10 @@ impl WithPurl for GrabOutcome {
     }
 }
 
-pub fn c13_flavor_case(spec: &BuildSpec, rebuild: bool, acc: &mut Acc) {
+pub fn c13_flavor_case(spec: &BuildSpec, mon: u32, acc: &mut Acc) {
     acc.evals += 1;
-    let case = json!({"engine": if rebuild { "c10-flavors" } else { "c13-flavors" }, "spec": spec.to_json()});
+    let rebuild = mon != 0;
+    let case = json!({"engine": if rebuild { "flavor-monitors" } else { "c13-flavors" }, "mon": mon, "spec": spec.to_json()});
     let r = guarded(|| {
         let mut first: Option<(&str, FlavorOutcome)> = None;
         for fl in ["String", "CowOwned", "CowBorrowed", "SmallString"] {
@@ -636,7 +646,7 @@ pub fn c13_flavor_case(spec: &BuildSpec, rebuild: bool, acc: &mut Acc) {
             if fl == "SmallString" {
                 continue;
             }
-            let mut g = GrabOutcome(None, if rebuild { Some(case.clone()) } else { None });
+            let mut g = GrabOutcome(None, if rebuild { Some(case.clone()) } else { None }, mon);
             build_flavor(fl, spec, acc, &mut g);
             let Some(out) = g.0 else { continue };
             match &first {
@@ -666,7 +676,7 @@ pub fn c13_flavor_case(spec: &BuildSpec, rebuild: bool, acc: &mut Acc) {
     acc.nontrivial += 1;
 }
 
-pub fn c13_sweep(tier: Tier, rebuild: bool) -> (Acc, Value) {
+pub fn c13_sweep(tier: Tier, rebuild: u32) -> (Acc, Value) {
     let rich = |ty: &str| BuildSpec { ty: ty.to_owned(), ns: "A/b".into(), name: "N".into(), version: "1".into(), quals: vec![("K".into(), "v".into())], subpath: "s".into() };
     // every scalar value as a one-character type and after a letter
     let mut total = for_all_scalars(|c, acc| {
